@@ -485,7 +485,11 @@ pub fn expand_glob(tokens: &mut types::Tokens) {
         tokens.remove(*i);
         for (j, token) in result.iter().enumerate() {
             // a file name is data, whatever characters it contains
-            let sep = if token.contains(' ') || has_operator_char(token) { "\"" } else { "" };
+            let sep = if token.contains(' ') || has_operator_char(token) || token.contains('{') {
+                "\""
+            } else {
+                ""
+            };
             tokens.insert(*i + j, (sep.to_string(), token.clone()));
         }
     }
@@ -983,7 +987,8 @@ fn do_command_substitution_for_dollar(sh: &mut Shell, tokens: &mut types::Tokens
             }
             // only the trailing newlines go; blanks belong to the output
             let output_txt = cmd_result.stdout.trim_end_matches('\n');
-            if has_operator_char(output_txt) {
+            // `{` too: the range pass runs after this one
+            if has_operator_char(output_txt) || output_txt.contains('{') {
                 got_operator = true;
             }
 
